@@ -60,6 +60,24 @@ func c02Scenarios(tier string) []*Scenario {
 			})
 		}
 	}
+	if maxDag < 4 {
+		// the 543 DAGs on four tasks: in the quick tier only the order / cycle-detector obligations (no executions)
+		scs = append(scs, &Scenario{
+			Name:  "dag4-static/all-543-dags",
+			Desc:  "reported task order and acceptance by the graph builder for every DAG on four tasks, every permutation of the task list",
+			Opts:  func() WorldOpts { return WorldOpts{Defs: defsOf(PipeCfg{Conc: 1, QL: -1, Graph: graphDiamond})} },
+			Setup: func(w *World) { w.SpawnDriver(Op{Kind: "S", Pipeline: "p"}) },
+			Static: func() []Violation {
+				var vs []Violation
+				for _, g := range allDAGs(4) {
+					vs = append(vs, checkSortAndCycle(g)...)
+				}
+				return dedupV(vs)
+			},
+			Check:  func(w *World, x *Exec) []Violation { return allMonitors(w, false) },
+			NoTick: true, Bound: intp(0),
+		})
+	}
 	for n := 1; n <= maxDag; n++ {
 		for _, g := range allDAGs(n) {
 			g := g
